@@ -88,7 +88,7 @@ func genC06(t *rapid.T) C06Case {
 				continue
 			}
 			used[old] = true
-			nw := rapid.SampledFrom([]string{`""`, "z", "@", "~", "sh", "q1"}).Draw(t, "new")
+			nw := rapid.SampledFrom([]string{`""`, "z", "@", "~", "sh", "q1", `\s*"`, `"x`, `"`, `x"y`, `""""`, `[\s"']`}).Draw(t, "new")
 			if nw == `""` && (old == "sh" || old == "x") {
 				// deleting a whole entry has no "typed in place" counterpart: keep at least one character
 				nw = "z"
